@@ -343,6 +343,16 @@ static int worker(void)
 		config_case(49000, 1000, 6, 16807, 2, &rng, 0);
 	}
 	unit++;
+	/* almost full columns (N1 close to n-k), high N1, thousands of sources: the builder redraws thousands of times per entry */
+	rep_unit(unit);
+	if (rep_unit_mine(unit)) {
+		rng_t rng = rng_make(g_run.seed, 586, 0);
+		config_case(2000, 140, 128, fixed_seeds[(g_run.seed + 1) % 4], 0, &rng, 0);
+		config_case(1000, 260, 254, 1 + (uint32_t)(rng_u64(&rng) % 2147483646u), 1, &rng, 0);
+		config_case(3000, 101, 100, 4, 2, &rng, 0);
+		if (T) { config_case(2000, 255, 254, 1, 0, &rng, 0); config_case(10000, 31, 30, 1 + (uint32_t)(rng_u64(&rng) % 2147483646u), 0, &rng, 0); config_case(5000, 66, 64, 2, 1, &rng, 0); }
+	}
+	unit++;
 	/* larger configurations */
 	static const uint32_t lk[] = { 64, 100, 257, 1000, 5000, 20000, 49997 };
 	for (unsigned i = 0; i < sizeof lk / sizeof lk[0]; i++, unit++) {
